@@ -126,6 +126,8 @@ Definition shut_obs (pos : string) (k : N) (shutdown release_first : bool) : val
     else if String.eqb pos "after_reply" then mk I_NONE false false
     else if String.eqb pos "peer_closed" then mk I_NONE false true
     else if String.eqb pos "peer_closed_partial" then mk (if k <? 12 then I_PARTIAL_HDR else I_HDR_ONLY) false true
+    (* the peer closed only its sending side: end of input for the daemon thread, but the peer still reads *)
+    else if String.eqb pos "peer_halfclose" then mk (if k =? 0 then I_NONE else if k <? 12 then I_PARTIAL_HDR else I_HDR_ONLY) false true
     else mk I_INVALID false false in
   (* the thread reaches its position *)
   let s1 := run_thread 8 s0 in
@@ -145,7 +147,7 @@ Definition shut_obs (pos : string) (k : N) (shutdown release_first : bool) : val
   let s4 := run_thread 8 (release (run_thread 8 s3)) in
   if pc s4 =? P_DONE then
     VL [VS ((if wait_ok s4 then "ok" else err_name (res s4)) ++ "/ok"); VN 1;
-        VS (if pclosed s4 then "closed" else "eof"); VS "ok"; VN 0]
+        VS (if pclosed s4 && negb (String.eqb pos "peer_halfclose") then "closed" else "eof"); VS "ok"; VN 0]
   else VL [VS "timeout"; VN 0; VS "timeout"; VS "n/a"; VN 99].
 
 (* serve(): wait's result with clean and partial-header disconnects mapped to success (Gen.GenLife.life_serve_forgives);
